@@ -124,6 +124,12 @@ func init() {
 			return "", err
 		}
 		def("cacheDataItemsFile", cf)
+		// ---- round 4
+		unb, err := cacheLoadUnbounded()
+		if err != nil {
+			return "", err
+		}
+		fmt.Fprintf(&b, "def cacheLoadUnbounded : Bool := %s\n", hx.LeanBool(unb))
 		return b.String(), nil
 	})
 }
